@@ -290,6 +290,10 @@ impl<'a> Interp<'a> {
                 };
                 if self.strict(*c) {
                     let av = &self.flags.avoid;
+                    if av.persistent_unsub && !self.model.conns[s].clean {
+                        self.stats.excluded_known += 1;
+                        return Ok(());
+                    }
                     let eff = self.effective_subs(s);
                     if av.unsub_shape {
                         // region R8: exactly one filter, subscribed on this very connection
